@@ -13,9 +13,12 @@
       holds again — so every later history behaves as the storage theorems (C01...) say for a world
       with the same component registry.
     - Condition A is necessary: [reset_fails_without_table] shows Reset panics when an archetype
-      without table exists (possible after a creation that panicked between createArchetype and
-      createTable through misuse outside the documented preconditions); this is recorded as an
-      observation in DESIGN.md.
+      without table exists. Such a state was reachable (a creation rejected between createArchetype and
+      createTable, e.g. a relation named for a non-relation component, left the archetype without
+      table; a later Reset then panicked half-way and corrupted the world): a genuine defect, found by
+      a proof attempt and REPAIRED in /repo (createArchetype creates the table of an archetype without
+      relation components itself). Since the repair conditions A and B hold in every reachable state
+      ([archs_tabled_norel]; StorageD [inv4_reset_empty], Rel2Hist [reachable_reset_succeeds]).
     - RELATION WORLDS (Rel2Maint.v), for every unlocked state satisfying St2 in which every
       relation-free archetype has its table: Reset succeeds and yields a world satisfying St2 with no
       live entity, every table empty, every relation table freed, all relation lookups empty, the
@@ -24,7 +27,7 @@
     comparison against a fresh world — `reset` correspondence stream: after Reset the complete
     internal dump must equal the model's, and histories continue on the reset world. *)
 From Ark Require Import Model.Base Model.Mask Model.Pool Model.Util Model.World Model.Run.
-From Ark Require Import Proofs.WF Proofs.StorageA Proofs.ResetShrinkProofs Proofs.ObsSpec Proofs.Rel2Defs Proofs.Rel2Maint Properties.Common.
+From Ark Require Import Proofs.WF Proofs.StorageA Proofs.ResetShrinkProofs Proofs.ObsSpec Proofs.Rel2Defs Proofs.Rel2Maint Proofs.StorageD Proofs.Rel2Hist Properties.Common.
 From Ark Require Proofs.ObsProofs.
 
 Theorem C16_reset_empty : forall s, St s -> is_locked s = false ->
@@ -85,6 +88,14 @@ Theorem C16_reset_relation_worlds : forall s, St2 s -> is_locked s = false ->
 Proof. exact D_reset_spec. Qed.
 Definition C16_relation_example := r2d_ex_reset_by_theorem.
 
-Definition C16_all := (C16_reset_relation_worlds, C16_relation_example, C16_reset_empty, C16_reset_locked_rejected, C16_reset_needs_every_archetype_to_have_a_table,
+(** Reset succeeds in EVERY state of the covered histories, in both tiers: conditions A/B of the
+    relation-free statement and hypothesis "(every relation-free archetype has its table)" of the
+    relation-world statement are invariants since the repair of createArchetype (7abff66). *)
+Definition C16_reset_succeeds_relation_histories := reachable_reset_succeeds.
+Definition C16_reset_conditions_AB_are_invariants := inv4_reset_empty.
+Definition C16_archetypes_always_have_their_table := (reachable_archs_tabled, reachable_inv2T).
+
+Definition C16_all := (C16_reset_succeeds_relation_histories, C16_reset_conditions_AB_are_invariants, C16_archetypes_always_have_their_table,
+  C16_reset_relation_worlds, C16_relation_example, C16_reset_empty, C16_reset_locked_rejected, C16_reset_needs_every_archetype_to_have_a_table,
   C16_reset_clears_observers).
 Print Assumptions C16_all.
